@@ -571,7 +571,8 @@ def e_grid_prep_opt(c):
         kw['kind'] = _pick(c, [float, int])
     if c.rng.random() < 0.3:
         kw['reps'] = int(c.rng.integers(1, 4))
-    return Call('grid_prep_opt', teneva.grid_prep_opt, [opt], kw, passthrough=True)
+    # handing the argument back is documented; a repeated (reps) result is a new array and must not alias it
+    return Call('grid_prep_opt', teneva.grid_prep_opt, [opt], kw, passthrough=('reps' not in kw))
 
 
 @entry()
@@ -583,7 +584,7 @@ def e_grid_prep_opts(c):
     kw = {'d': d}
     if c.rng.random() < 0.3:
         kw['reps'] = 2
-    return Call('grid_prep_opts', teneva.grid_prep_opts, [a, b, n], kw, passthrough=True)
+    return Call('grid_prep_opts', teneva.grid_prep_opts, [a, b, n], kw, passthrough=('reps' not in kw))
 
 
 @entry()
